@@ -18,7 +18,8 @@ pub fn mon() -> Mon {
         replay,
         rule: "Receive corpus (same systematic sweeps as C10: every value of header bytes 0-12, every type byte, every control header byte, command 0..255 x direction x data length 0..24 (48 thorough), every completion code, valid and invalid PECs, truncations, every total length, padded and random strings) decoded on four contexts with different address, configuration and history plus three contexts derived from each packet (the addressee: address/EID equal to the packet's destination; the sender; a cross-wired one). An independent reference decoder written from the statement decides accept/reject, the payload range, and the set of truthful errors; the library must agree on accept/reject and range, any error it returns must be in the truthful set, and the four contexts must answer identically. Non-trivial = an in-claim input (not one of the statically excluded byte classes) was judged; distinct = distinct in-claim byte strings.",
         assumptions: &[
-            "outside the claim, by the property's text and as a fixed byte-determined list: inputs shorter than 10 bytes, control requests shorter than 12 and responses shorter than 13 bytes, Success responses to commands 0x02/0x08/0x09, control requests with command >= 0x09, responses with completion code >= 6, Success responses with command 0x07 or >= 0x0A",
+            "outside the claim, by the property's text and as a fixed byte-determined list: inputs shorter than 10 bytes, control requests shorter than 12 and responses shorter than 13 bytes, Success responses to commands 0x02/0x08/0x09",
+            "an error variant added to the library after this harness was written (EK::Other) names a condition the oracle cannot know: such a rejection is counted as unjudged, not as untruthful",
             "the choice among several true error conditions is free (order of checks is not specified)",
         ],
         children: no_children,
@@ -43,6 +44,8 @@ fn truthful(mt: u8, ek: &EK, t: &Truth) -> bool {
         EK::InvalidPec => t.pec_bad,
         EK::InvalidLen => t.len_bad && mt == 0x00,
         EK::Unsuccessful(c) => t.cc == Some(*c) && mt == 0x00,
+        // names no condition; the only way to report a completion code that has no variant
+        EK::CtlUnknown => t.cc_undefined && mt == 0x00,
         _ => false,
     }
 }
@@ -105,6 +108,7 @@ pub fn check(ctxs: &[&MCTPSMBusContext], x: &[u8], rep: &mut Report) {
         (RefOut::Reject(t), DecOut::Ok { .. }) => {
             rep.violation(&format!("malformed-accepted:{}", dclass), || format!("decode_packet({}) = {} but the input is not well-formed: {:?}", hex(x), got.brief(), t), case);
         }
+        (RefOut::Reject(_), DecOut::Err { ek: EK::Other, .. }) => rep.class("unjudged:error-variant-unknown-to-the-harness"),
         (RefOut::Reject(t), DecOut::Err { mt, ek }) => {
             if truthful(*mt, ek, t) {
                 rep.class(&format!("agree:reject:{}", got.class()));
